@@ -309,6 +309,14 @@ def execute(scenario):
         res.op_results += s3.op_results
         res.events.append(["twin", tw["k"], tw["kind"], s3.events])
         k = tw["k"]
+        if tw["kind"] == "truncate" and s3.crash is None and len(s3.actuator.account_status) < k + 1:
+            # the shortened history does not contain bar k at all: an hourly market whose last prefix hours have no data
+            # row gets those (empty) bars only because a LATER row exists (resampling fills the gap between the first and
+            # the last row).  The two data sets then agree only on the bars the shorter one has.
+            k = len(s3.actuator.account_status) - 1
+            res.count("probe:truncated_twin_shorter_than_prefix")
+            if k < 0:
+                continue
         pa, pb = _prefix(s1.events, k), _prefix(s3.events, k)
         res.count("fault:future_divergence:" + tw["kind"])
         if tw.get("mid_bin"):
